@@ -76,6 +76,9 @@ func acyclic(n int, es [][2]int) bool {
 // c05creation selects how service i is created (0: constructors only; 1: a mix of constructor, value and type-only)
 var c05creation = 0
 
+// c05bare: services carry no field of their own (a service that is only tagged has no argument, call or field at all)
+var c05bare = false
+
 func c05cfg(n int, es [][2]int, kinds []int, scopes []int) *Cfg {
 	names := c05names(n)
 	cfg := &Cfg{Meta: stdMeta()}
@@ -99,10 +102,13 @@ func c05cfg(n int, es [][2]int, kinds []int, scopes []int) *Cfg {
 		}
 		return false
 	}
-	// every service also depends on a parameter (parameters are nodes of the same graph as services)
+	// every service also depends on a parameter (parameters are nodes of the same graph as services); in the bare
+	// variant nothing at all is injected into a service except what the edges say
 	cfg.Params = []Param{{"common", "shared-param"}}
 	for i := range svcs {
-		svcs[i].Fields = append(svcs[i].Fields, KV{"F2", "%common%"})
+		if !c05bare {
+			svcs[i].Fields = append(svcs[i].Fields, KV{"F2", "%common%"})
+		}
 	}
 	svcs[0].Getter, svcs[0].MustGetter = P("FetchSa"), P(true)
 	for ei, e := range es {
@@ -111,9 +117,16 @@ func c05cfg(n int, es [][2]int, kinds []int, scopes []int) *Cfg {
 		case "ctor":
 			a.Args = append(a.Args, "@"+b.Name)
 		case "field":
-			f := "F1"
-			if len(a.Fields) >= 2 {
-				f = "f3"
+			f := ""
+			for _, cand := range []string{"F1", "f3", "F2"} {
+				used := false
+				for _, kv := range a.Fields {
+					used = used || kv.K == cand
+				}
+				if !used {
+					f = cand
+					break
+				}
 			}
 			a.Fields = append(a.Fields, KV{f, "@" + b.Name})
 		case "call":
@@ -265,6 +278,9 @@ func init() {
 						es, kinds, sc := es, kinds, append([]int{}, sc...)
 						w.Case(id, func(c *C) {
 							c05verdict(w, c, id, 3, es, kinds, sc)
+							c05bare = true
+							c05verdict(w, c, id+"/bare", 3, es, kinds, sc)
+							c05bare = false
 							if gi == 7 && k == 4 && sc[0] == 1 && sc[1] == 0 && sc[2] == 2 {
 								c.Sample(map[string]any{"case": id, "yaml": c05cfg(3, es, kinds, sc).YAML()})
 							}
